@@ -171,7 +171,7 @@ def ob_g_mul():
                     return r_.path[0], (dom.term(ix[1]) if isinstance(ix, tuple) else z3.IntVal(ix))
                 (row, ix), (row2, iy) = where(rx), where(ry)
                 if row != row2:
-                    raise Violation("to_jacobi combines coordinates of two different table rows")
+                    raise Inconclusive("structure not recognised (no verdict): " + "to_jacobi combines coordinates of two different table rows")
                 h = ex_.ctx.fresh("tabj", "int")
                 ex_.ctx.facts.append(z3.Or(ix == 2 * h, ix == 2 * h + 1))         # definition of h = floor(ix / 2)
                 ex_.ctx.oblige("invariant", z3.And(iy == ix + 1, ix >= 0, ix == 2 * h), "table lookup uses entries (2j, 2j+1) of one row", "g_mul")
@@ -188,7 +188,7 @@ def ob_g_mul():
                 i, m = iv.v, rg[0]
                 word = l4.ld(ex_, frame[word_local].val)
                 if not z3.eq(dom.term(word), dom.term(k[i])):
-                    raise Violation("g_mul: word %d of the loop is not limb %d of the scalar" % (i, i))
+                    raise Inconclusive("structure not recognised (no verdict): " + "g_mul: word %d of the loop is not limb %d of the scalar" % (i, i))
                 # the low 8m bits of the limb, as the domain's own remainder term (the same division the code performs next)
                 Lo = dom.term(dom.divmod(word, 8 * m)[1]) if m > 0 else z3.IntVal(0)
                 want = L[i] + Lo * (1 << (64 * i))
